@@ -3215,8 +3215,8 @@ class Norm:
                     return True
                 if b_.get("k") == "Block" and not b_["b"].get("stmts") and "expr" not in b_["b"]:
                     return True
-                return self._only_mut_effects(b_)
-            return all(arm_ok(a["body"]) for a in node["arms"]) and any(self._only_mut_effects(a["body"]) for a in node["arms"])
+                return self._only_mut_effects(b_, allow_lets=True)
+            return all(arm_ok(a["body"]) for a in node["arms"]) and any(self._only_mut_effects(a["body"], allow_lets=True) for a in node["arms"])
         return False
 
     def _only_mut_effects(self, blk, allow_lets=False):
